@@ -104,20 +104,69 @@ SAFE = set(map(ord, "abcdefghijklmnopqrstuvwxyzABCDEFGHIJKLMNOPQRSTUVWXYZ0123456
 def r(ck: Check) -> None:
     fm = ck.prog.fm(PN, "sanitize_network_names")
     f = fm.f
-    chk = [n for n in own_walk(f.node) if isinstance(n, ast.Call) and (dotted(n.func) or "") in ("re.match", "re.fullmatch", "re.search")]
-    sub = [n for n in own_walk(f.node) if isinstance(n, ast.Call) and (dotted(n.func) or "") == "re.sub"]
+    # uses of regular expressions: re.match(P, s) / re.sub(P, r, s), or <compiled>.match(s) / <compiled>.sub(r, s) where the
+    # compiled pattern is a module-level constant or a local
+    consts: dict[str, ast.AST] = {}
+    for st in fm.f.module.tree.body:
+        if isinstance(st, ast.Assign) and len(st.targets) == 1 and isinstance(st.targets[0], ast.Name):
+            consts[st.targets[0].id] = st.value
+
+    def const_of(e, at):
+        e = fm.deref(e, at)
+        if isinstance(e, ast.Name) and e.id in consts:
+            e = consts[e.id]
+        return e
+
+    uses = []   # (kind, pattern string, subject expr, replacement expr, flags?, call)
+    for n in own_walk(f.node):
+        if not isinstance(n, ast.Call):
+            continue
+        d_ = dotted(n.func) or ""
+        at = fm.cfgn(n)
+        if d_ in ("re.match", "re.fullmatch", "re.search", "re.sub") and n.args:
+            pat = const_of(n.args[0], at)
+            kind = d_[3:]
+            rest_ = n.args[1:]
+        elif isinstance(n.func, ast.Attribute) and n.func.attr in ("match", "fullmatch", "search", "sub"):
+            comp = const_of(n.func.value, at)
+            if not (isinstance(comp, ast.Call) and (dotted(comp.func) or "") == "re.compile" and comp.args):
+                continue
+            if len(comp.args) > 1 or comp.keywords:
+                uses.append(("flags", None, None, None, n))
+            pat = const_of(comp.args[0], at)
+            kind = n.func.attr
+            rest_ = n.args
+        else:
+            continue
+        if not (isinstance(pat, ast.Constant) and isinstance(pat.value, str)):
+            raise AnalysisError("anchor vanished: a regular expression of sanitize_network_names is not a string constant")
+        if kind == "sub":
+            uses.append(("sub", pat.value, rest_[1] if len(rest_) > 1 else None, rest_[0] if rest_ else None, n))
+            if len(rest_) > 2 or n.keywords:
+                uses.append(("flags", None, None, None, n))
+        else:
+            uses.append((kind, pat.value, rest_[0] if rest_ else None, None, n))
+            if len(rest_) > 1 or n.keywords:
+                uses.append(("flags", None, None, None, n))
+    chk_u = [u_ for u_ in uses if u_[0] in ("match", "fullmatch", "search")]
+    sub_u = [u_ for u_ in uses if u_[0] == "sub"]
     probs = []
-    if len(chk) != 1 or len(sub) != 1 or not isinstance(chk[0].args[0], ast.Constant) or not isinstance(sub[0].args[0], ast.Constant):
+    if len(chk_u) != 1 or len(sub_u) != 1:
         raise AnalysisError("anchor vanished: the two regular expressions of sanitize_network_names")
-    if len(chk[0].args) > 2 or chk[0].keywords or len(sub[0].args) > 3 and False:
+    if any(u_[0] == "flags" for u_ in uses):
         probs.append("regex flags change the meaning of the character classes")
-    cp = _parse_class(chk[0].args[0].value)
-    sp = _parse_class(sub[0].args[0].value)
-    full = (dotted(chk[0].func) == "re.fullmatch")
+
+    class _U:  # small adaptor so that the class analysis below reads the same for both spellings
+        def __init__(self, u_):
+            self.kind, self.pattern, self.subject, self.repl, self.call = u_
+    chk, sub = [_U(chk_u[0])], [_U(sub_u[0])]
+    cp = _parse_class(chk[0].pattern)
+    sp = _parse_class(sub[0].pattern)
+    full = chk[0].kind == "fullmatch"
     if cp is None:
-        probs.append(f"the acceptance pattern {chk[0].args[0].value!r} is not of the form ^[class]+$")
+        probs.append(f"the acceptance pattern {chk[0].pattern!r} is not of the form ^[class]+$")
     elif cp[0] == "category":
-        probs.append(f"the acceptance pattern {chk[0].args[0].value!r} uses a category escape (\\\\w, \\\\d ...): in Python these match "
+        probs.append(f"the acceptance pattern {chk[0].pattern!r} uses a category escape (\\\\w, \\\\d ...): in Python these match "
                      f"non-ASCII letters and digits, which are not valid in clingo symbols")
     else:
         acc, neg, anchored, rep = cp
@@ -126,9 +175,9 @@ def r(ck: Check) -> None:
         elif not acc <= SAFE:
             probs.append(f"accepted characters {sorted(map(chr, acc - SAFE))} are not safe in clingo symbols")
         if sp is None:
-            probs.append(f"the replacement pattern {sub[0].args[0].value!r} is not a single character class")
+            probs.append(f"the replacement pattern {sub[0].pattern!r} is not a single character class")
         elif sp[0] == "category":
-            probs.append(f"the replacement pattern {sub[0].args[0].value!r} uses a category escape: characters that are 'word "
+            probs.append(f"the replacement pattern {sub[0].pattern!r} uses a category escape: characters that are 'word "
                          f"characters' in Unicode (Greek letters, superscripts) are not replaced")
         else:
             rs, rneg, _, _ = sp
@@ -139,10 +188,10 @@ def r(ck: Check) -> None:
                              f"without being repaired, or repaired into a name that is rejected")
             if not rneg:
                 probs.append("the replacement class is not a negated class: characters outside ASCII are not replaced")
-        repl = sub[0].args[1]
+        repl = sub[0].repl
         if not (isinstance(repl, ast.Constant) and isinstance(repl.value, str) and repl.value and all(ord(c) in acc for c in repl.value)):
             probs.append("the replacement text is not itself made of accepted characters")
-        if text(chk[0].args[1]) != text(sub[0].args[2]):
+        if chk[0].subject is None or sub[0].subject is None or text(chk[0].subject) != text(sub[0].subject):
             probs.append("the checked and the repaired string differ")
     ck.ob("R", fm, f.node, not probs, "; ".join(probs) if probs else "accepted class within [A-Za-z0-9_]; replaced class is its complement",
           key="regex classes")
